@@ -1,3 +1,4 @@
+import Bmc.Proto.Metrics
 import Bmc.Driver.Send
 import Bmc.Proto.Handshake
 namespace Bmc.Driver
@@ -37,5 +38,15 @@ def evalHs2 (args : List String) : String :=
       let rest := if rest.head? == some "/" then rest.drop 1 else rest
       go f rest (acc ++ [r])
   " ; ".intercalate (go args.length args [])
+
+/-- `hsm <12 hs args>`: what the instrumentation model (`Metrics.step` with `openOk` / `openFail`) does during the
+    handshake of `hs`: the outcome is that of the byte-level handshake model `newSession`. -/
+def evalHsM (args : List String) : String :=
+  let r := evalHs args
+  if r == "bad-op" then r else
+  let ok := ((r.splitOn " res=").getD 1 "").startsWith "ok"
+  let m := Bmc.Proto.Metrics.step {} (if ok then .openOk else .openFail)
+  let other := m.retries + m.cmdAttempts.length + m.cmdFailures.length + m.responses.length
+  s!"res={if ok then "ok" else "err"} attempts={m.sessAttempts} failures={m.sessFailures} open={m.sessOpen} other={other}"
 
 end Bmc.Driver
